@@ -29,18 +29,35 @@ def sanitizeUnit : RUnit → List Nat
 
 def sanitize (s : List RUnit) : List Nat := s.flatMap sanitizeUnit
 
+/-- Go's `unicode.IsSpace` (the White_Space property) -/
+def isSpaceRune (r : Nat) : Bool :=
+  (9 ≤ r && r ≤ 13) || r = 0x20 || r = 0x85 || r = 0xA0 || r = 0x1680 || (0x2000 ≤ r && r ≤ 0x200A) ||
+  r = 0x2028 || r = 0x2029 || r = 0x202F || r = 0x205F || r = 0x3000
+
+/-- a leading blank, escaped: `\xNN` below U+0100, `\uNNNN` above (every blank is in the BMP) -/
+def escLead (r : Nat) : List Nat :=
+  if r < 256 then escByte r
+  else [92, 117, hexLower ((r / 4096) % 16), hexLower ((r / 256) % 16), hexLower ((r / 16) % 16), hexLower (r % 16)]
+
+/-- main.go `sanitizeLead`: `sanitize` for a string that starts an output line — its leading white space is escaped as
+    well, so the text cannot choose its own indentation.  `Gen.cliEscapesLead = false`: plain `sanitize`. -/
+def sanitizeLead : List RUnit → List Nat
+  | .rune r :: rest =>
+    if Gen.cliEscapesLead && isSpaceRune r then escLead r ++ sanitizeLead rest else sanitize (.rune r :: rest)
+  | s => sanitize s
+
 def spaces (n : Nat) : List Nat := List.replicate n 32
 
 def renderAttrs (indent : Nat) : List (List RUnit × List RUnit) → List Nat
   | [] => []
   | (n, v) :: rest =>
-    spaces indent ++ [32, 32] ++ sanitize n ++ [58, 32] ++ sanitize v ++ [10] ++ renderAttrs indent rest
+    spaces indent ++ [32, 32] ++ sanitizeLead n ++ [58, 32] ++ sanitize v ++ [10] ++ renderAttrs indent rest
 
 mutual
 /-- `printInfo(info, indent)`: the runes written to standard output -/
 def render : UInfo → Nat → List Nat
   | .mk d as cs, indent =>
-    spaces indent ++ sanitize d ++ [10] ++ renderAttrs indent as ++ renderList cs (indent + 2)
+    spaces indent ++ sanitizeLead d ++ [10] ++ renderAttrs indent as ++ renderList cs (indent + 2)
 def renderList : List UInfo → Nat → List Nat
   | [], _ => []
   | c :: cs, indent => render c indent ++ renderList cs indent
@@ -49,7 +66,7 @@ end
 /-- `inspectFile`: the path printed in front of the report, followed by ": ".  `Gen.cliSanitizesPath` says whether the
     path goes through `sanitize` like every other displayed string. -/
 def pathPrefix (path : List RUnit) : List Nat :=
-  (if Gen.cliSanitizesPath then sanitize path
+  (if Gen.cliSanitizesPath then sanitizeLead path
    else path.flatMap fun u => match u with | .rune r => [r] | .bad _ => [0xFFFD]) ++ [58, 32]
 
 end WhatIs.Cli
